@@ -35,6 +35,24 @@ def histories(rng, tier):
 
         for _ in range(rng.randint(3, 10)):
             r = rng.random()
+            if c.nbytes >= 2 and rng.random() < 0.12:
+                # a pixel whose bits all sit in ONE byte, then xor with a list that cancels exactly that byte and
+                # carries a bit in another byte: the pixel passes through the all-zero row mid-operation
+                # (seeded change C13f re-evaluated validity per byte column in the in-place form)
+                p0 = rng.choice(focus) * c.nfine + rng.randrange(c.nfine)
+                byte = rng.randrange(c.nbytes)
+                x = rng.choice([1, 128, 129, 33, rng.randint(1, 255)])
+                row = [0] * c.nbytes
+                row[byte] = x
+                other = rng.choice([b for b in range(c.nbytes) if b != byte])
+                bl = [8 * byte + j for j in range(8) if x >> j & 1] + [8 * other + rng.randrange(8)]
+                bl = [b for b in bl if b < W]
+                rng.shuffle(bl)
+                touched.add(p0)
+                h.append('upd w op=replace pix=%d val=b%s' % (p0, '.'.join(map(str, row))))
+                h.append('sop w op=xor bits=%s%s' % (','.join(map(str, bl)),
+                                                     rng.choice([' inplace=1', ' inplace=1', ' r=w'])))
+                h += ['state w', 'valid w', 'nvalid w']
             pix = gen.rand_pixels(rng, c, unique=False, focus=focus)
             touched.update(pix)
             ptxt = ','.join(map(str, pix)) or '_'
